@@ -10,6 +10,10 @@ The invariant `HL` is per stream: (1) not closed → `hdrListSize ≤ limit`; (2
 the header section is finished and the stream is at least half-closed (so no further header block is ever decoded for
 it). Clause (1) is broken for one stream between `handleFrame` (the field loop adds the size of the offending field
 before it reports the error) and `onFrameError` (which closes the stream): `HLw uid`.
+
+(3) `hd`, for every stream of the table at every moment (F68 repaired): the octets of a header field that is not complete
+yet, carried over to the next CONTINUATION frame (`prevHdr`, Go `previousHeaderBytes`), are at most `heldFactor` = 4 times
+the limit — `held_header_octets_bounded`. The field loop checks before it stores.
 -/
 namespace H2.Server
 
@@ -20,8 +24,10 @@ structure Hl where
   hsz : Nat
   running : Bool
   hfin : Bool
+  held : Nat
 
-def Strm.hl (st : Strm) : Hl := ⟨st.uid, st.state, st.hdrListSize, st.handlerRunning, st.headersFinished⟩
+def Strm.hl (st : Strm) : Hl :=
+  ⟨st.uid, st.state, st.hdrListSize, st.handlerRunning, st.headersFinished, st.prevHdr.length⟩
 
 def hls (r : R) : List Hl := r.s.strms.map Strm.hl
 
@@ -35,30 +41,36 @@ def P1 (cfg : Cfg) (t : Hl) : Prop :=
 
 def POK (cfg : Cfg) (t : Hl) : Prop := P1 cfg t ∧ PW cfg t
 
+/-- clause (3): the octets of an unfinished header field a stream holds -/
+def PH (cfg : Cfg) (t : Hl) : Prop :=
+  cfg.maxHeaderList > 0 → (t.held : Int) ≤ (heldFactor : Int) * cfg.maxHeaderList
+
 structure HL (cfg : Cfg) (r : R) : Prop where
   cf : r.s.cfg = cfg
   ok : ∀ t ∈ hls r, POK cfg t
   ab : ∀ a ∈ r.s.abandoned, cfg.maxHeaderList > 0 → (a.hdrListSize : Int) ≤ cfg.maxHeaderList
+  hd : ∀ t ∈ hls r, PH cfg t
 
 /-- the weak form: entries with uid `uid` may break clause (1) -/
 structure HLw (cfg : Cfg) (uid : Nat) (r : R) : Prop where
   cf : r.s.cfg = cfg
   ok : ∀ t ∈ hls r, PW cfg t ∧ (t.uid ≠ uid → P1 cfg t)
   ab : ∀ a ∈ r.s.abandoned, cfg.maxHeaderList > 0 → (a.hdrListSize : Int) ≤ cfg.maxHeaderList
+  hd : ∀ t ∈ hls r, PH cfg t
 
 section
 variable {cfg : Cfg} {r r' : R}
 
 theorem HL.weak (h : HL cfg r) (uid : Nat) : HLw cfg uid r :=
-  ⟨h.cf, fun t ht => ⟨(h.ok t ht).2, fun _ => (h.ok t ht).1⟩, h.ab⟩
+  ⟨h.cf, fun t ht => ⟨(h.ok t ht).2, fun _ => (h.ok t ht).1⟩, h.ab, h.hd⟩
 
 theorem HL.congr (h : HL cfg r) (hs : hls r' = hls r) (ha : r'.s.abandoned = r.s.abandoned) (hc : r'.s.cfg = r.s.cfg) :
     HL cfg r' :=
-  ⟨by rw [hc]; exact h.cf, by rw [hs]; exact h.ok, by rw [ha]; exact h.ab⟩
+  ⟨by rw [hc]; exact h.cf, by rw [hs]; exact h.ok, by rw [ha]; exact h.ab, by rw [hs]; exact h.hd⟩
 
 theorem HLw.congr {uid : Nat} (h : HLw cfg uid r) (hs : hls r' = hls r) (ha : r'.s.abandoned = r.s.abandoned)
     (hc : r'.s.cfg = r.s.cfg) : HLw cfg uid r' :=
-  ⟨by rw [hc]; exact h.cf, by rw [hs]; exact h.ok, by rw [ha]; exact h.ab⟩
+  ⟨by rw [hc]; exact h.cf, by rw [hs]; exact h.ok, by rw [ha]; exact h.ab, by rw [hs]; exact h.hd⟩
 
 theorem hls_upd (r : R) (uid : Nat) (f : Strm → Strm) :
     hls (r.updStrm uid f) = r.s.strms.map fun x => if x.uid == uid then (f x).hl else x.hl := by
@@ -81,16 +93,22 @@ theorem hls_upd_mem {uid : Nat} {f : Strm → Strm} {t : Hl} (ht : t ∈ hls (r.
 
 /-- **in-place update**: the new entries with that uid are in order whenever the old ones were -/
 theorem HL.upd (h : HL cfg r) (uid : Nat) (f : Strm → Strm)
-    (hf : ∀ x ∈ r.s.strms, x.uid = uid → POK cfg x.hl → POK cfg (f x).hl) : HL cfg (r.updStrm uid f) := by
-  refine ⟨h.cf, ?_, h.ab⟩
-  intro t ht
-  obtain ⟨x, hx, ⟨_, e⟩ | ⟨hu, e⟩⟩ := hls_upd_mem ht
-  · rw [e]; exact h.ok _ (List.mem_map_of_mem hx)
-  · rw [e]; exact hf x hx hu (h.ok _ (List.mem_map_of_mem hx))
+    (hf : ∀ x ∈ r.s.strms, x.uid = uid → POK cfg x.hl → POK cfg (f x).hl)
+    (hh : ∀ x ∈ r.s.strms, x.uid = uid → PH cfg x.hl → PH cfg (f x).hl := by intro _ _ _ hp; exact hp) :
+    HL cfg (r.updStrm uid f) := by
+  refine ⟨h.cf, ?_, h.ab, ?_⟩
+  · intro t ht
+    obtain ⟨x, hx, ⟨_, e⟩ | ⟨hu, e⟩⟩ := hls_upd_mem ht
+    · rw [e]; exact h.ok _ (List.mem_map_of_mem hx)
+    · rw [e]; exact hf x hx hu (h.ok _ (List.mem_map_of_mem hx))
+  · intro t ht
+    obtain ⟨x, hx, ⟨_, e⟩ | ⟨hu, e⟩⟩ := hls_upd_mem ht
+    · rw [e]; exact h.hd _ (List.mem_map_of_mem hx)
+    · rw [e]; exact hh x hx hu (h.hd _ (List.mem_map_of_mem hx))
 
 /-- an update that keeps state, size, `handlerRunning` and `headersFinished` -/
 theorem HL.updK (h : HL cfg r) (uid : Nat) (f : Strm → Strm) (hf : ∀ x, (f x).hl = x.hl) : HL cfg (r.updStrm uid f) :=
-  h.upd uid f fun _ _ _ hp => by rw [hf]; exact hp
+  h.upd uid f (fun _ _ _ hp => by rw [hf]; exact hp) (fun _ _ _ hp => by rw [hf]; exact hp)
 
 theorem POK.close {t : Hl} (h : PW cfg t) (t' : Hl) (h1 : t'.state = .closed) (h2 : t'.hsz = t.hsz) (h3 : t'.running = t.running)
     (h4 : t'.hfin = t.hfin) : POK cfg t' := by
@@ -106,27 +124,36 @@ theorem HL.updClose (h : HL cfg r) (uid : Nat) : HL cfg (r.updStrm uid fun s => 
 
 /-- closing the stream that may break clause (1) repairs the invariant -/
 theorem HLw.updClose {uid : Nat} (h : HLw cfg uid r) : HL cfg (r.updStrm uid fun s => { s with state := .closed }) := by
-  refine ⟨h.cf, ?_, h.ab⟩
-  intro t ht
-  obtain ⟨x, hx, ⟨hu, e⟩ | ⟨hu, e⟩⟩ := hls_upd_mem ht
-  · rw [e]
-    have := h.ok _ (List.mem_map_of_mem hx)
-    exact ⟨this.2 hu, this.1⟩
-  · rw [e]
-    exact POK.close (h.ok _ (List.mem_map_of_mem hx)).1 _ rfl rfl rfl rfl
+  refine ⟨h.cf, ?_, h.ab, ?_⟩
+  · intro t ht
+    obtain ⟨x, hx, ⟨hu, e⟩ | ⟨hu, e⟩⟩ := hls_upd_mem ht
+    · rw [e]
+      have := h.ok _ (List.mem_map_of_mem hx)
+      exact ⟨this.2 hu, this.1⟩
+    · rw [e]
+      exact POK.close (h.ok _ (List.mem_map_of_mem hx)).1 _ rfl rfl rfl rfl
+  · intro t ht
+    obtain ⟨x, hx, ⟨_, e⟩ | ⟨_, e⟩⟩ := hls_upd_mem ht
+    · rw [e]; exact h.hd _ (List.mem_map_of_mem hx)
+    · rw [e]; exact (h.hd x.hl (List.mem_map_of_mem hx) : PH cfg x.hl)
 
 theorem HLw.updK {uid : Nat} (h : HLw cfg uid r) (uid' : Nat) (f : Strm → Strm) (hf : ∀ x, (f x).hl = x.hl) :
     HLw cfg uid (r.updStrm uid' f) := by
-  refine ⟨h.cf, ?_, h.ab⟩
-  intro t ht
-  obtain ⟨x, hx, ⟨_, e⟩ | ⟨_, e⟩⟩ := hls_upd_mem ht
-  · rw [e]; exact h.ok _ (List.mem_map_of_mem hx)
-  · rw [e, hf x]; exact h.ok _ (List.mem_map_of_mem hx)
+  refine ⟨h.cf, ?_, h.ab, ?_⟩
+  · intro t ht
+    obtain ⟨x, hx, ⟨_, e⟩ | ⟨_, e⟩⟩ := hls_upd_mem ht
+    · rw [e]; exact h.ok _ (List.mem_map_of_mem hx)
+    · rw [e, hf x]; exact h.ok _ (List.mem_map_of_mem hx)
+  · intro t ht
+    obtain ⟨x, hx, ⟨_, e⟩ | ⟨_, e⟩⟩ := hls_upd_mem ht
+    · rw [e]; exact h.hd _ (List.mem_map_of_mem hx)
+    · rw [e, hf x]; exact h.hd _ (List.mem_map_of_mem hx)
 
 /-- replacing the stream `getStrm uid` returns by one with the same skeleton -/
 theorem HL.updC (h : HL cfg r) (uid : Nat) (st st' : Strm) (hg : r.getStrm uid = some st) (hs : st'.hl = st.hl) :
     HL cfg (r.updStrm uid fun _ => st') :=
-  h.upd uid _ fun _ _ _ _ => by rw [hs]; exact h.ok _ (List.mem_map_of_mem (getStrm_mem hg).1)
+  h.upd uid _ (fun _ _ _ _ => by rw [hs]; exact h.ok _ (List.mem_map_of_mem (getStrm_mem hg).1))
+    (fun _ _ _ _ => by rw [hs]; exact h.hd _ (List.mem_map_of_mem (getStrm_mem hg).1))
 
 theorem HL.of (h : HL cfg r) {uid : Nat} {st : Strm} (hg : r.getStrm uid = some st) : POK cfg st.hl :=
   h.ok _ (List.mem_map_of_mem (getStrm_mem hg).1)
@@ -167,9 +194,8 @@ theorem fieldLoop_limit (fuel : Nat) (s : Srv) (st : Strm) (bs eh : Bool) (fp : 
       | needMore =>
         rw [hd] at hn
         simp only [] at hn ⊢
-        split
-        · exact h0
-        · exact h0
+        repeat' split
+        all_goals exact h0
       | err =>
         rw [hd] at hn
         simp at hn
@@ -255,13 +281,62 @@ theorem handleHeaderFrame_keeps_h3 (s : Srv) (st : Strm) (fr : Frame.Frame) :
     | rfl
     | (rw [fieldLoop_keeps_h3]; try rfl)
 
+/-! ## the field loop: what it leaves of an unfinished field is within `heldFactor` times the limit -/
+
+/-- the octets of an unfinished field a stream holds are within the bound (trivially so when the limit is off) -/
+def HeldOK (cfg : Cfg) (st : Strm) : Prop :=
+  cfg.maxHeaderList > 0 → (st.prevHdr.length : Int) ≤ (heldFactor : Int) * cfg.maxHeaderList
+
+theorem fieldUpdate_prev (st : Strm) (f : Hpack.Field) : (fieldUpdate st f).prevHdr = st.prevHdr := by
+  simp only [fieldUpdate]
+  repeat' split
+  all_goals rfl
+
+theorem heldTooLong_false {cfg : Cfg} {tail : Bytes} (h : ¬ heldTooLong cfg tail = true) (hpos : cfg.maxHeaderList > 0) :
+    (tail.length : Int) ≤ (heldFactor : Int) * cfg.maxHeaderList := by
+  simp only [heldTooLong, Bool.and_eq_true, decide_eq_true_eq, not_and, Int.not_lt] at h
+  exact h hpos
+
+/-- **the field loop stores an unfinished field only when it is within the bound**: whatever the octets, with or
+without an error -/
+theorem fieldLoop_held (fuel : Nat) (s : Srv) (st : Strm) (bs eh : Bool) (fp : Nat) (b : Bytes) (h0 : HeldOK s.cfg st) :
+    HeldOK s.cfg (fieldLoop fuel s st bs eh fp b).2.1 := by
+  induction fuel generalizing s st fp b with
+  | zero => simpa [fieldLoop] using h0
+  | succ n ih =>
+    cases b with
+    | nil => simpa [fieldLoop] using h0
+    | cons c cs =>
+      simp only [fieldLoop]
+      repeat' split
+      all_goals first
+        | exact h0
+        | (intro hpos; exact heldTooLong_false (by assumption) hpos)
+        | (intro hpos; simp only [fieldStep, fieldUpdate_prev]; exact h0 hpos)
+        | (rename_i dec fo rest _ _ _
+           have := ih { s with dec := dec } (fieldStep s.cfg { st with fieldSeen := true } fo).1 (fp + 1) rest
+             (by intro hpos; simp only [fieldStep, fieldUpdate_prev]; exact h0 hpos)
+           exact this)
+
+/-- **`handleHeaderFrame` leaves the stream with an unfinished field within the bound** (it empties `prevHdr` before
+the loop; where it fails before the loop the stream is as it was) -/
+theorem handleHeaderFrame_held (s : Srv) (st : Strm) (fr : Frame.Frame) (h0 : HeldOK s.cfg st) :
+    HeldOK s.cfg (handleHeaderFrame s st fr).2.1 := by
+  have hz : ∀ x : Strm, HeldOK s.cfg { x with prevHdr := [] } := by
+    intro x hpos; simp only [List.length_nil, heldFactor]; omega
+  simp only [handleHeaderFrame]
+  repeat' split
+  all_goals first
+    | exact h0
+    | exact fieldLoop_held _ _ _ _ _ _ _ (hz _)
+
 /-! ## preservation -/
 
 section Pres
 variable {cfg : Cfg} {r : R}
 
 theorem HL.triv (hpos : ¬ cfg.maxHeaderList > 0) (hc : r.s.cfg = cfg) : HL cfg r :=
-  ⟨hc, fun _ _ => ⟨fun h => absurd h hpos, fun h => absurd h hpos⟩, fun _ _ h => absurd h hpos⟩
+  ⟨hc, fun _ _ => ⟨fun h => absurd h hpos, fun h => absurd h hpos⟩, fun _ _ h => absurd h hpos, fun _ _ h => absurd h hpos⟩
 
 theorem mem_updStrm {uid : Nat} {f : Strm → Strm} {x : Strm} (hx : x ∈ (r.updStrm uid f).s.strms) :
     ∃ y ∈ r.s.strms, (y.uid ≠ uid ∧ x = y) ∨ (y.uid = uid ∧ x = f y) := by
@@ -276,16 +351,21 @@ theorem mem_updStrm {uid : Nat} {f : Strm → Strm} {x : Strm} (hx : x ∈ (r.up
 
 /-- update of the exempt stream: the new entries keep the uid and satisfy clause (2) -/
 theorem HLw.updW {uid : Nat} (h : HLw cfg uid r) (f : Strm → Strm)
-    (hf : ∀ x ∈ r.s.strms, x.uid = uid → (f x).uid = uid ∧ PW cfg (f x).hl) : HLw cfg uid (r.updStrm uid f) := by
-  refine ⟨h.cf, ?_, h.ab⟩
-  intro t ht
-  obtain ⟨x, hx, ⟨_, e⟩ | ⟨hu, e⟩⟩ := hls_upd_mem ht
-  · rw [e]; exact h.ok _ (List.mem_map_of_mem hx)
-  · rw [e]
-    exact ⟨(hf x hx hu).2, fun hne => absurd (hf x hx hu).1 hne⟩
+    (hf : ∀ x ∈ r.s.strms, x.uid = uid → (f x).uid = uid ∧ PW cfg (f x).hl ∧ PH cfg (f x).hl) :
+    HLw cfg uid (r.updStrm uid f) := by
+  refine ⟨h.cf, ?_, h.ab, ?_⟩
+  · intro t ht
+    obtain ⟨x, hx, ⟨_, e⟩ | ⟨hu, e⟩⟩ := hls_upd_mem ht
+    · rw [e]; exact h.ok _ (List.mem_map_of_mem hx)
+    · rw [e]
+      exact ⟨(hf x hx hu).2.1, fun hne => absurd (hf x hx hu).1 hne⟩
+  · intro t ht
+    obtain ⟨x, hx, ⟨_, e⟩ | ⟨hu, e⟩⟩ := hls_upd_mem ht
+    · rw [e]; exact h.hd _ (List.mem_map_of_mem hx)
+    · rw [e]; exact (hf x hx hu).2.2
 
 theorem HLw.toHL {uid : Nat} (h : HLw cfg uid r) (h1 : ∀ x ∈ r.s.strms, x.uid = uid → P1 cfg x.hl) : HL cfg r := by
-  refine ⟨h.cf, ?_, h.ab⟩
+  refine ⟨h.cf, ?_, h.ab, h.hd⟩
   intro t ht
   obtain ⟨x, hx, rfl⟩ := List.mem_map.mp ht
   have := h.ok _ (List.mem_map_of_mem hx)
@@ -333,7 +413,7 @@ theorem closeStream_hl (uid : Nat) (h : HL cfg r) : HL cfg (closeStream r uid) :
     simp only []
     split
     · rename_i hrun
-      refine ⟨h.cf, fun t ht => h.ok t (hsub t ht), ?_⟩
+      refine ⟨h.cf, fun t ht => h.ok t (hsub t ht), ?_, fun t ht => h.hd t (hsub t ht)⟩
       intro a ha hpos
       rcases List.mem_append.mp ha with ha | ha
       · exact h.ab a ha hpos
@@ -341,8 +421,8 @@ theorem closeStream_hl (uid : Nat) (h : HL cfg r) : HL cfg (closeStream r uid) :
         exact ((h.of hg).2 hpos hrun).1
     · unfold releaseStream
       split
-      · exact ⟨h.cf, fun t ht => h.ok t (hsub t ht), h.ab⟩
-      · exact ⟨h.cf, fun t ht => h.ok t (hsub t ht), h.ab⟩
+      · exact ⟨h.cf, fun t ht => h.ok t (hsub t ht), h.ab, fun t ht => h.hd t (hsub t ht)⟩
+      · exact ⟨h.cf, fun t ht => h.ok t (hsub t ht), h.ab, fun t ht => h.hd t (hsub t ht)⟩
 
 /-! sending -/
 
@@ -474,6 +554,10 @@ theorem hhf_hl (uid : Nat) (st : Strm) (fr : Frame.Frame) (hg : r.getStrm uid = 
     intro hpos hr
     simp only [Strm.hl] at hr
     rw [e3, hrun hpos] at hr; cases hr
+  have ph0 : PH cfg (handleHeaderFrame r.s st fr).2.1.hl := by
+    have := handleHeaderFrame_held r.s st fr (by rw [h.cf]; exact h.hd st.hl (List.mem_map_of_mem hm))
+    rw [h.cf] at this
+    exact this
   have p1 : (handleHeaderFrame r.s st fr).2.2 = none → ∀ fin, P1 cfg ({ (handleHeaderFrame r.s st fr).2.1 with headersFinished := fin } : Strm).hl := by
     intro hn fin hpos hne
     simp only [Strm.hl] at hne ⊢
@@ -482,7 +566,7 @@ theorem hhf_hl (uid : Nat) (st : Strm) (fr : Frame.Frame) (hg : r.getStrm uid = 
     rw [h.cf] at this
     exact this
   have hw1 : HLw cfg uid (({ r with s := (handleHeaderFrame r.s st fr).1 } : R).updStrm uid fun _ => (handleHeaderFrame r.s st fr).2.1) :=
-    (h0.weak uid).updW _ fun _ _ _ => ⟨by rw [e1, hu], pw0⟩
+    (h0.weak uid).updW _ fun _ _ _ => ⟨by rw [e1, hu], pw0, ph0⟩
   -- every entry with that uid is now the stream the loop returned
   have hthe : ∀ x ∈ (({ r with s := (handleHeaderFrame r.s st fr).1 } : R).updStrm uid fun _ => (handleHeaderFrame r.s st fr).2.1).s.strms,
       x.uid = uid → x = (handleHeaderFrame r.s st fr).2.1 := by
@@ -495,7 +579,7 @@ theorem hhf_hl (uid : Nat) (st : Strm) (fr : Frame.Frame) (hg : r.getStrm uid = 
     intro fin
     refine hw1.updW _ fun x hx hxu => ?_
     rw [hthe x hx hxu]
-    exact ⟨by show (handleHeaderFrame r.s st fr).2.1.uid = uid; rw [e1, hu], pw fin⟩
+    exact ⟨by show (handleHeaderFrame r.s st fr).2.1.uid = uid; rw [e1, hu], pw fin, ph0⟩
   refine ⟨hw1, fun hn => hw1.toHL fun x hx hxu => ?_, hw2, fun hn fin => (hw2 fin).toHL fun x hx hxu => ?_⟩
   · rw [hthe x hx hxu]
     exact p1 hn (handleHeaderFrame r.s st fr).2.1.headersFinished
@@ -554,15 +638,21 @@ theorem closeIfClosing_hl (h : HL cfg r) : HL cfg (closeIfClosing r) := by
 
 /-- a new stream: idle, nothing counted yet, no handler -/
 theorem new_hl (id typ : Nat) (win : Int) (h : HL cfg r) : HL cfg (sfWithNew r id typ win) := by
-  have hs : hls (sfWithNew r id typ win) = hls r ++ [⟨r.s.nextUid, .idle, 0, false, false⟩] := by
+  have hs : hls (sfWithNew r id typ win) = hls r ++ [⟨r.s.nextUid, .idle, 0, false, false, 0⟩] := by
     simp [hls, Strm.hl, sfWithNew]
-  refine ⟨h.cf, ?_, h.ab⟩
-  intro t ht
-  rw [hs] at ht
-  rcases List.mem_append.mp ht with ht | ht
-  · exact h.ok t ht
-  · simp only [List.mem_singleton] at ht; subst ht
-    exact ⟨fun hpos _ => by simp only []; omega, fun _ hr => by simp at hr⟩
+  refine ⟨h.cf, ?_, h.ab, ?_⟩
+  · intro t ht
+    rw [hs] at ht
+    rcases List.mem_append.mp ht with ht | ht
+    · exact h.ok t ht
+    · simp only [List.mem_singleton] at ht; subst ht
+      exact ⟨fun hpos _ => by simp only []; omega, fun _ hr => by simp at hr⟩
+  · intro t ht
+    rw [hs] at ht
+    rcases List.mem_append.mp ht with ht | ht
+    · exact h.hd t ht
+    · simp only [List.mem_singleton] at ht; subst ht
+      intro hpos; simp only [heldFactor]; omega
 
 theorem unknownStream_hl (fr : Frame.Frame) (wc : Bool) (h : HL cfg r) : HL cfg (unknownStream r fr wc).1 := by
   simp only [unknownStream]
@@ -610,6 +700,13 @@ theorem handleState_rank (fr : Frame.Frame) (x : Strm) :
     (handleState fr x).hdrListSize = x.hdrListSize ∧ (handleState fr x).handlerRunning = x.handlerRunning ∧
     (handleState fr x).headersFinished = x.headersFinished ∧ x.state.rank ≤ (handleState fr x).state.rank := by
   cases hs : x.state <;> simp only [handleState] <;> (repeat' split) <;> simp_all [StState.rank]
+
+theorem handleState_ph (fr : Frame.Frame) (x : Strm) (hp : PH cfg x.hl) : PH cfg (handleState fr x).hl := by
+  have e : (handleState fr x).prevHdr = x.prevHdr := by
+    cases hs : x.state <;> simp only [handleState] <;> (repeat' split) <;> simp_all
+  intro hpos
+  simp only [Strm.hl, e]
+  exact hp hpos
 
 theorem handleState_pok (fr : Frame.Frame) (x : Strm) (hp : POK cfg x.hl) : POK cfg (handleState fr x).hl := by
   obtain ⟨a, b, c, d⟩ := handleState_rank fr x
@@ -668,7 +765,7 @@ theorem knownStream_hl (uid : Nat) (fr : Frame.Frame) (wc : Bool) (hs : SF cfg' 
     · have s3 := s2.updK uid (handleState fr) (handleState_sl fr)
       have h3 : HL cfg ((onFrameError (handleFrame (headersPrelude r fr).1 uid fr).1 uid
           (handleFrame (headersPrelude r fr).1 uid fr).2).1.updStrm uid (handleState fr)) :=
-        h2.upd uid _ fun x _ _ hp => handleState_pok fr x hp
+        h2.upd uid _ (fun x _ _ hp => handleState_pok fr x hp) (fun x _ _ hp => handleState_ph fr x hp)
       split
       · exact h3
       · rename_i st hg
@@ -741,8 +838,8 @@ theorem slHandlerDone_hl (sid : Nat) (resp : Resp) (h : HL cfg r) : HL cfg (slHa
           fun a ha => h0.ab a (List.mem_filter.mp ha).1
         unfold releaseStream
         split
-        · exact ⟨h0.cf, h0.ok, hab⟩
-        · exact ⟨h0.cf, h0.ok, hab⟩
+        · exact ⟨h0.cf, h0.ok, hab, h0.hd⟩
+        · exact ⟨h0.cf, h0.ok, hab, h0.hd⟩
       · exact h0
     · rename_i st hf
       have h1 : HL cfg (r0.updStrm st.uid fun s => { s with handlerRunning := false }) :=
@@ -831,7 +928,7 @@ theorem runFrom_hls {cfg cfg' : Cfg} {G : List Nat} {s : Srv} (evs : List Event)
   | cons ev evs ih => exact ih (step_sfs ev hs).1 (step_hls ev hs h)
 
 theorem init_hls (cfg : Cfg) : HLS cfg { cfg := cfg } :=
-  ⟨rfl, fun t ht => by simp [hls] at ht, fun a ha => by simp at ha⟩
+  ⟨rfl, fun t ht => by simp [hls] at ht, fun a ha => by simp at ha, fun t ht => by simp [hls] at ht⟩
 
 /-- **the invariant holds after every run** from the initial state of any configuration -/
 theorem run_hls (cfg : Cfg) (evs : List Event) : HLS cfg (run cfg evs).1 :=
@@ -851,6 +948,15 @@ theorem handler_headers_within_limit (cfg : Cfg) (evs : List Event) (hpos : cfg.
   refine ⟨fun st hst hr => ?_, fun a ha => h.ab a ha hpos, fun st hst hne => ?_⟩
   · exact (h.ok st.hl (List.mem_map_of_mem hst)).2 hpos hr
   · exact (h.ok st.hl (List.mem_map_of_mem hst)).1 hpos hne
+
+/-- **held_header_octets_bounded** (run level): with MaxHeaderListSize set, in every reachable state every stream of the
+table holds at most `heldFactor` = 4 times MaxHeaderListSize octets of a header field that is not complete yet
+(`prevHdr`, Go `strm.previousHeaderBytes`) — however many HEADERS/CONTINUATION frames the peer has sent. The bound is
+attained (`Ex.cutRun`). -/
+theorem held_header_octets_bounded (cfg : Cfg) (evs : List Event) (hpos : cfg.maxHeaderList > 0) :
+    ∀ st ∈ (run cfg evs).1.strms, (st.prevHdr.length : Int) ≤ 4 * cfg.maxHeaderList := by
+  intro st hst
+  exact (run_hls cfg evs).hd st.hl (List.mem_map_of_mem hst) hpos
 
 /-- **dispatch_within_header_limit** (step level, under the invariant): where the stream loop hands a request to a
 handler (`dispatchOrSend` emits a dispatch record for the stream `st` it was given), that stream's header list is
@@ -882,6 +988,23 @@ example : fm tag (runOuts { maxHeaderList := 200 } hdrRun) = [("dispatch", 1), (
 example : (run { maxHeaderList := 200 } hdrRun).1.strms.map (fun st => (st.id, st.hdrListSize, st.handlerRunning)) =
     [(1, 123, true), (3, 243, false)] := by decide +kernel
 example : ((run { maxHeaderList := 200 } hdrRun).1.strms.filter (·.id == 3)).map (·.state) = [.closed] := by decide +kernel
+
+/-- HEADERS(sid, no flags): a literal field without indexing, name `a`, whose value announces 127 octets, with `n`
+of them: `5 + n` octets of a field that never ends in this frame -/
+def cutHdrs (sid n : Nat) : Event := .bytes ([0, 0, 5 + n, 1, 0, 0, 0, 0, sid, 0x00, 0x01, 0x61, 0x7f, 0x00] ++ List.replicate n 0x78)
+/-- CONTINUATION(sid, no flags) with `n` more octets of the value -/
+def moreCont (sid n : Nat) : Event := .bytes ([0, 0, n, 9, 0, 0, 0, 0, sid] ++ List.replicate n 0x78)
+
+/-- MaxHeaderListSize = 10, so 40 octets may be held: 5 + 30, then 5 more — held; one more — GOAWAY, nothing held -/
+def cutRun : List Event := [settings0, cutHdrs 1 30, moreCont 1 5]
+
+example : (run { maxHeaderList := 10 } cutRun).1.strms.map (fun st => (st.id, st.prevHdr.length)) = [(1, 40)] ∧
+    fm tag (runOuts { maxHeaderList := 10 } cutRun) = [] := by decide +kernel
+example : (run { maxHeaderList := 10 } (cutRun ++ [moreCont 1 1])).1.strms.map (fun st => (st.id, st.prevHdr.length)) = [(1, 0)] ∧
+    fm tag (runOuts { maxHeaderList := 10 } (cutRun ++ [moreCont 1 1])) = [("goaway", 1)] := by decide +kernel
+/-- with the check off the same octets are kept -/
+example : (run { maxHeaderList := -1 } (cutRun ++ [moreCont 1 1])).1.strms.map (fun st => (st.id, st.prevHdr.length)) = [(1, 41)] := by
+  decide +kernel
 
 end Ex
 
